@@ -245,6 +245,9 @@ SITES = [
     # recursion over the ORDER BY criteria of the *query*
     ("exec::cmp_bindings_with", "sparql/src/exec.rs", "cmp_bindings_with", "ExecState",
      ["cmp_bindings_with(b1, b2, rest, config, graph_matcher)"]),
+    # recursion over the sub-expressions of a *query* expression (EXISTS check before evaluation)
+    ("exec::check_exists", "sparql/src/exec.rs", "check_exists", "ExecState",
+     ["self.check_exists(e)", "self.check_exists(a)", "self.check_exists(b)"]),
     # recursion over the triple patterns of the *query* (one level per pattern, any number of rows)
     ("bgp::bgp_rec", "sparql/src/bgp.rs", "bgp_rec", None,
      ["bgp_rec(state, remaining, bs, b, graph_matcher)"]),
@@ -274,8 +277,11 @@ CYCLES = [
       "write_triple(w, t.to_triple().unwrap())"]),
     # SPARQL algebra: one level per operator of the *query*
     ("exec::select~operators", "sparql/src/exec.rs",
-     {"select", "filter", "union", "graph", "graph_rec", "extend", "order_by", "project", "distinct", "slice"},
-     ["self.filter(expr, inner, graph_matcher, binding)", "self.union(left, right, graph_matcher, binding)",
+     {"select", "filter", "union", "graph", "graph_rec", "extend", "order_by", "project", "distinct", "slice",
+      "check_exists"},
+     [# the EXISTS patterns of an expression are evaluated once, before the rows are filtered / extended / sorted
+      "self.check_exists(expression)", "self.check_exists(e)", "self.select(pattern, &[], None)",
+      "self.filter(expr, inner, graph_matcher, binding)", "self.union(left, right, graph_matcher, binding)",
       "self.graph(name, inner, binding)", "self.extend(inner, variable, expression, graph_matcher, binding)",
       "self.order_by(inner, expression, graph_matcher, binding)",
       "self.project(inner, variables, graph_matcher, binding)", "self.distinct(inner, graph_matcher, binding)",
